@@ -20,6 +20,11 @@ theorem grow_invisible (s : CA) (nb : Int) (hI : InvA s) (hd : Disjoint s.base s
   let h := grow_invisible' s nb hI hd
   ⟨h.1, h.2.1⟩
 
+/-- what "well formed" means, on the addressed state itself: `sp`, `fp`, saved frame pointers and
+open slot pointers are slot boundaries of the backing array (open slots inside it), and the open
+list holds exactly the open upvalues by strictly descending address -/
+theorem wellformed_iff (s : CA) : InvA s ↔ WF s := ⟨WF_of_InvA s, InvA_of_WF s⟩
+
 /-- the statement above, for an arbitrary implementation of growth -/
 def GrowInvisible (g : CA → Int → CA) : Prop :=
   ∀ (s : CA) (nb : Int), InvA s → Disjoint s.base s.mem.length nb → abs (g s nb) = abs s ∧ InvA (g s nb)
